@@ -301,7 +301,7 @@ theorem pdOk_fresh {p : PD} (h : p.epoll = false) :
 
 /-- post-condition of `netFD.connect` -/
 def ConnPost (s : St) : CRes → Prop
-  | .blocked => True
+  | .blocked => s.pd.ctxTaken = none
   | .ret _ err => Held s true false ∧ CtxPost s.pd err
 
 theorem connect_spec {s : St} (h : Held s true false) (hc : s.pd.ctxTaken = none) (a : Attempt) :
@@ -321,7 +321,7 @@ theorem connect_spec {s : St} (h : Held s true false) (hc : s.pd.ctxTaken = none
     generalize connectLoop (newPollDesc { s with pd := ctxNow s.pd a.ctxAt }).pd a.wakes = r at hl
     obtain ⟨p, res, rest⟩ := r
     cases res with
-    | blocked => trivial
+    | blocked => exact hl.2
     | ret rsa err =>
       obtain ⟨hok, hep, hcp⟩ := hl
       simp only at hok hep hcp
@@ -362,7 +362,7 @@ theorem close_fresh {s : St} (h : Held s true false) {n : NetFD} (hn : n.closedC
 
 /-- post-condition of `netFD.dial` -/
 def DialStepPost (s : St) : Option (Option DErr) → Prop
-  | none => True
+  | none => s.pd.ctxTaken = none
   | some err => Held s true false ∧ CtxPost s.pd err
 
 theorem dial_spec {s : St} (h : Held s true false) (hc : s.pd.ctxTaken = none) (a : Attempt) :
@@ -376,12 +376,12 @@ theorem dial_spec {s : St} (h : Held s true false) (hc : s.pd.ctxTaken = none) (
       generalize connect s a = r at hcs
       obtain ⟨s', res⟩ := r
       cases res with
-      | blocked => trivial
+      | blocked => exact hcs
       | ret rsa err => exact hcs
 
 /-- post-condition of `socket()` -/
 def SockPost (s : St) : SRes → Prop
-  | .blocked => True
+  | .blocked => s.pd.ctxTaken = none
   | .ret none (some e) => Held s false false ∧ CtxPost s.pd (some e)
   | .ret (some n) none => Held s true false ∧ n.closedCnt = 0 ∧ 2 < n.fd ∧ s.pd.ctxTaken = none
   | .ret (some _) (some _) => False
@@ -405,7 +405,7 @@ theorem socket_spec {s : St} (h : Held s false false) (hc : s.pd.ctxTaken = none
       generalize dial { s with L := { s.L with opened := s.L.opened + 1, fdOpen := true } } a = r at hd
       obtain ⟨s', res⟩ := r
       cases res with
-      | none => trivial
+      | none => exact hd
       | some err =>
         obtain ⟨hh, hcp⟩ := hd
         simp only at hh hcp
@@ -459,13 +459,13 @@ theorem retry_spec (auto : Bool) {att : Nat → Attempt} (hfd : ∀ i, 2 < (att 
       generalize socket (closeIfConn s cur) (att (i + 1)) = r at hs
       obtain ⟨s', cur'⟩ := r
       cases cur' with
-      | blocked => trivial
+      | blocked => exact hs
       | ret c e => exact ih (i + 1) hs
     · exact h
 
 /-- post-condition of a whole dial -/
 def DialPost (s : St) : DRes → Prop
-  | .blocked => True
+  | .blocked => s.pd.ctxTaken = none
   | .ret true none => Held s true true ∧ s.pd.ctxTaken = none
   | .ret false (some e) => Held s false false ∧ CtxPost s.pd (some e)
   | .ret true (some _) => False
@@ -493,14 +493,14 @@ theorem dialTCP_spec {s : St} (h : Held s false false) (hc : s.pd.ctxTaken = non
   generalize socket s (t.att 0) = r at hs
   obtain ⟨s0, cur⟩ := r
   cases cur with
-  | blocked => trivial
+  | blocked => exact hs
   | ret c e =>
     simp only
     have hr := retry_spec t.auto hfd retryBound 0 hs
     generalize retry t.auto t.att retryBound 0 s0 (SRes.ret c e) = r at hr
     obtain ⟨s1, cur1, i⟩ := r
     cases cur1 with
-    | blocked => trivial
+    | blocked => exact hr
     | ret c1 e1 =>
       cases c1 with
       | none =>
@@ -522,7 +522,7 @@ theorem dialUnix_spec {s : St} (h : Held s false false) (hc : s.pd.ctxTaken = no
   generalize socket s a = r at hs
   obtain ⟨s0, cur⟩ := r
   cases cur with
-  | blocked => trivial
+  | blocked => exact hs
   | ret c e =>
     cases c with
     | none =>
@@ -555,7 +555,7 @@ theorem dialAddrs_spec {s : St} (h : Held s false false) (hc : s.pd.ctxTaken = n
     generalize dialTCP s a.tcp = r at ht
     obtain ⟨s1, res, i⟩ := r
     cases res with
-    | blocked => trivial
+    | blocked => exact ht
     | ret c e =>
       cases e with
       | none =>
@@ -591,5 +591,229 @@ theorem dialAddrs_spec {s : St} (h : Held s false false) (hc : s.pd.ctxTaken = n
 
 theorem held_init : Held ({} : St) false false := by
   constructor <;> rfl
+
+/-! ### result shapes (independent of descriptor numbers) -/
+
+def SShape : SRes → Prop
+  | .blocked => True
+  | .ret (some _) none => True
+  | .ret none (some _) => True
+  | _ => False
+
+def DShape : DRes → Prop
+  | .blocked => True
+  | .ret true none => True
+  | .ret false (some _) => True
+  | _ => False
+
+theorem socket_shape (s : St) (a : Attempt) : SShape (socket s a).2 := by
+  unfold socket
+  split
+  · trivial
+  · simp only
+    split
+    · trivial
+    · generalize dial { s with L := { s.L with opened := s.L.opened + 1, fdOpen := true } } a = r
+      obtain ⟨s', res⟩ := r
+      cases res with
+      | none => trivial
+      | some err => cases err <;> trivial
+
+theorem retry_shape (auto : Bool) (att : Nat → Attempt) (n i : Nat) (s : St) {cur : SRes} (h : SShape cur) :
+    SShape (retry auto att n i s cur).2.1 := by
+  induction n generalizing i s cur with
+  | zero => exact h
+  | succ n ih =>
+    unfold retry
+    split
+    · have hs := socket_shape (closeIfConn s cur) (att (i + 1))
+      generalize socket (closeIfConn s cur) (att (i + 1)) = r at hs
+      obtain ⟨s', cur'⟩ := r
+      cases cur' with
+      | blocked => trivial
+      | ret c e => exact ih (i + 1) s' hs
+    · exact h
+
+theorem newConnection_shape (s : St) (n : NetFD) (regErr : Errno) : DShape (newConnection s n regErr).2 := by
+  unfold newConnection
+  simp only
+  split <;> trivial
+
+theorem dialTCP_shape (s : St) (t : TcpScript) : DShape (dialTCP s t).2.1 := by
+  have hs := socket_shape s (t.att 0)
+  unfold dialTCP
+  generalize socket s (t.att 0) = r at hs
+  obtain ⟨s0, cur⟩ := r
+  cases cur with
+  | blocked => trivial
+  | ret c e =>
+    simp only
+    have hr := retry_shape t.auto t.att retryBound 0 s0 hs
+    generalize retry t.auto t.att retryBound 0 s0 (SRes.ret c e) = r at hr
+    obtain ⟨s1, cur1, i⟩ := r
+    cases cur1 with
+    | blocked => trivial
+    | ret c1 e1 =>
+      cases c1 with
+      | none =>
+        cases e1 with
+        | none => exact hr.elim
+        | some e => trivial
+      | some nfd =>
+        cases e1 with
+        | some e => trivial
+        | none => exact newConnection_shape s1 nfd t.regErr
+
+theorem dialUnix_shape (s : St) (a : Attempt) (regErr : Errno) : DShape (dialUnix s a regErr).2 := by
+  have hs := socket_shape s a
+  unfold dialUnix
+  generalize socket s a = r at hs
+  obtain ⟨s0, cur⟩ := r
+  cases cur with
+  | blocked => trivial
+  | ret c e =>
+    cases c with
+    | none =>
+      cases e with
+      | none => exact hs.elim
+      | some e => trivial
+    | some nfd =>
+      cases e with
+      | some e => exact hs.elim
+      | none => exact newConnection_shape s0 nfd regErr
+
+theorem dialAddrs_shape (s : St) (firstErr : Option DErr) (as : List AddrScript) :
+    DShape (dialAddrs s firstErr as).2 := by
+  induction as generalizing s firstErr with
+  | nil => unfold dialAddrs; cases firstErr <;> trivial
+  | cons a as ih =>
+    have ht := dialTCP_shape s a.tcp
+    unfold dialAddrs
+    generalize dialTCP s a.tcp = r at ht
+    obtain ⟨s1, res, i⟩ := r
+    cases res with
+    | blocked => trivial
+    | ret c e =>
+      cases e with
+      | none => exact ht
+      | some e =>
+        simp only
+        split
+        · trivial
+        · exact ih _ _
+
+/-! ### bounds of the loops -/
+
+theorem retry_index_le (auto : Bool) (att : Nat → Attempt) (n i : Nat) (s : St) (cur : SRes) :
+    (retry auto att n i s cur).2.2 ≤ i + n := by
+  induction n generalizing i s cur with
+  | zero => simp [retry]
+  | succ n ih =>
+    unfold retry
+    split
+    · generalize socket (closeIfConn s cur) (att (i + 1)) = r
+      obtain ⟨s', cur'⟩ := r
+      cases cur' with
+      | blocked => simp only; omega
+      | ret c e => have := ih (i + 1) s' (SRes.ret c e); simp only; omega
+    · simp only; omega
+
+theorem dialTCP_attempts_le (s : St) (t : TcpScript) : (dialTCP s t).2.2 ≤ retryBound := by
+  unfold dialTCP
+  generalize socket s (t.att 0) = r
+  obtain ⟨s0, cur⟩ := r
+  cases cur with
+  | blocked => simp
+  | ret c e =>
+    simp only
+    have hr := retry_index_le t.auto t.att retryBound 0 s0 (SRes.ret c e)
+    generalize retry t.auto t.att retryBound 0 s0 (SRes.ret c e) = r at hr
+    obtain ⟨s1, cur1, i⟩ := r
+    simp only at hr
+    cases cur1 with
+    | blocked => simp only; omega
+    | ret c1 e1 =>
+      cases c1 with
+      | none => cases e1 <;> (simp only; omega)
+      | some nfd => cases e1 <;> (simp only; omega)
+
+/-! ### liveness of the wait loop: a done context that the select takes ends the wait -/
+
+theorem deliver_ctx_isSome {p : PD} (e : Ev) (h : p.ctx.isSome = true) : (deliver p e).ctx.isSome = true := by
+  cases hk : p.ctx with
+  | none => simp [hk] at h
+  | some k => simp [deliver_ctx_some e hk]
+
+theorem deliverAll_ctx_isSome {p : PD} (evs : List Ev) (h : p.ctx.isSome = true) :
+    (deliverAll p evs).ctx.isSome = true := by
+  cases hk : p.ctx with
+  | none => simp [hk] at h
+  | some k => simp [deliverAll_ctx_some evs hk]
+
+theorem deliverAll_ctx_of_mem {p : PD} {evs : List Ev} {k : CtxErr} (h : Ev.ctxDone k ∈ evs) :
+    (deliverAll p evs).ctx.isSome = true := by
+  unfold deliverAll
+  induction evs generalizing p with
+  | nil => cases h
+  | cons e es ih =>
+    simp only [List.foldl_cons]
+    cases h with
+    | head =>
+      have : (deliver p (Ev.ctxDone k)).ctx.isSome = true := by
+        simp only [deliver]; split <;> simp_all
+      exact deliverAll_ctx_isSome es this
+    | tail _ h' => exact ih h'
+
+theorem waitWrite_ctx_pick {p : PD} {w : Wake} (hp : w.pick = .c)
+    (hctx : p.ctx.isSome = true ∨ ∃ k, Ev.ctxDone k ∈ w.evs) :
+    (waitWrite p w).2 ≠ .blocked ∧ (waitWrite p w).2 ≠ .ok := by
+  unfold waitWrite
+  split
+  · simp
+  · rename_i p' heq
+    have hp' : p'.ctx = p.ctx := by
+      unfold register at heq
+      split at heq
+      · split at heq <;> first | (cases heq; rfl) | cases heq
+      · cases heq; rfl
+    have hsome : (deliverAll p' w.evs).ctx.isSome = true := by
+      cases hctx with
+      | inl h => exact deliverAll_ctx_isSome _ (by rw [hp']; exact h)
+      | inr h => obtain ⟨k, hk⟩ := h; exact deliverAll_ctx_of_mem hk
+    unfold waitSelect choose
+    simp only [hp, ready, hsome, if_true]
+    cases hk : (deliverAll p' w.evs).ctx with
+    | none => simp [hk] at hsome
+    | some k => simp
+
+theorem connectLoop_returns_on_ctx_pick (p : PD) (pre : List Wake) (w : Wake) (post : List Wake)
+    (hp : w.pick = .c) (hctx : ∃ k, Ev.ctxDone k ∈ w.evs) :
+    (connectLoop p (pre ++ w :: post)).2.1 ≠ .blocked := by
+  induction pre generalizing p with
+  | nil =>
+    have hw := @waitWrite_ctx_pick p w hp (Or.inr hctx)
+    simp only [List.nil_append]
+    unfold connectLoop
+    generalize waitWrite p w = r at hw
+    obtain ⟨p', res⟩ := r
+    cases res with
+    | ok => exact absurd rfl hw.2
+    | blocked => exact absurd rfl hw.1
+    | err e => simp
+  | cons w0 pre ih =>
+    simp only [List.cons_append]
+    unfold connectLoop
+    split
+    · exact ih _
+    · simp
+    · split
+      · simp
+      · split
+        · exact ih _
+        · simp
+        · split
+          · simp
+          · exact ih _
+        · simp
 
 end Netpoll.Dial
